@@ -389,6 +389,27 @@ def check_rerender(ctx, h, case, stratum):
     from hugr.hugr.render import PALETTE, DotRenderer, RenderConfig
 
     ctx.count("monitor:rerender-after-change")
+    # the HUGR's own entry point, asked twice with an equal configuration and an edit in between that changes neither
+    # the number of nodes nor the number of links (metadata written, one wire moved to another port)
+    cfg0 = RenderConfig(PALETTE["zx"], True)
+    h.render_dot(cfg0)
+    h[list(h)[-1]].metadata["edited-between-two-renderings"] = "<&>"
+    lks = [(s_, t_) for s_, t_ in h.links() if s_.offset >= 0 and t_.offset >= 0]
+    if len(lks) >= 2 and lks[0][0] != lks[1][0]:
+        # two links exchange their targets (only if that keeps every link on ports of the same kind and type)
+        (s1, t1), (s2, t2) = lks[0], lks[1]
+        try:
+            same = h.port_kind(s1) == h.port_kind(s2)
+        except Exception:  # noqa: BLE001
+            same = False
+        if same:
+            h.delete_link(s1, t1)
+            h.delete_link(s2, t2)
+            h.add_link(s1, t2)
+            h.add_link(s2, t1)
+    if h.render_dot(RenderConfig(PALETTE["zx"], True)).source != DotRenderer(cfg0).render(h).source:
+        ctx.disc(None, "stale-render-after-change", "Hugr.render_dot twice", "the DOT source a fresh renderer produces",
+                 "differs", stratum=stratum, case=case)
     rr = DotRenderer(RenderConfig(PALETTE["default"], False))
     rr.render(h)
     nodes = list(h)
